@@ -53,13 +53,16 @@ func (r *ascii85Reader) Read(p []byte) (n int, err error) {
 	if len(p) == 0 {
 		return 0, nil
 	}
-	if r.immediateError != nil {
-		return 0, r.immediateError
-	}
-
+	// bytes decoded but not yet delivered come first, also after the end marker
 	if len(r.leftover) > 0 {
 		n = copy(p, r.leftover)
 		r.leftover = r.leftover[n:]
+		if n == len(p) {
+			return n, nil
+		}
+	}
+	if r.immediateError != nil {
+		return n, r.immediateError
 	}
 
 	for n < len(p) {
@@ -87,6 +90,10 @@ func (r *ascii85Reader) Read(p []byte) (n int, err error) {
 					r.immediateError = io.EOF
 				} else {
 					r.immediateError = errors.New("invalid end marker in ASCII85 stream")
+				}
+				if len(r.leftover) > 0 {
+					// deliver the rest of the last group before reporting the end
+					return n, nil
 				}
 				return n, r.immediateError
 			}
